@@ -28,14 +28,14 @@ RULE = ('cases: seeded batch_run calls on a self-identifying fixture model: grid
         'construction, for every n of the batch, with 1 and k processes. Offline oracle over the returned records: result count == '
         '|product| x repetitions; each result carries exactly one run uuid, uuids pairwise distinct, collector ids match the request; the '
         'multiset of parameter combinations == product x repetitions; each run recorded exactly timesteps 0..min(completion, limit)-1; '
-        'product order for one process; injected fault reaches the caller as the same type and tag. Non-trivial batch: >=2 processes, '
+        'product order for one process; the injected fault (classes derived from Exception, KeyError, IndexError, AttributeError, StopIteration) reaches the caller - itself or as the cause of what is raised. Non-trivial batch: >=2 processes, '
         '>=4 executions and either a completion order different from submission order or a fault; distinct by the batch signature.')
 ASSUMPTIONS = ['a batch_run call that hangs in Pool.terminate() after a failed execution is the known finding F7; any other hang is inconclusive',
                'fault position = n-th model construction (global ordinal claimed through O_EXCL files), which equals the list position for one '
                'process and approximates it for several', 'a hang outside that mechanism is reported as inconclusive by the watchdog, not as a violation']
 FLOORS = {'quick': {'batches': 100, 'executions_checked': 350, 'records_checked': 1500, 'fault_batches': 30, 'faults_propagated': 30,
                     'multi_process_batches': 50, 'reordered_batches': 5, 'serial_order_checks': 10, 'limit_below_completion': 15,
-                    'limit_above_completion': 15, 'multi_collector_batches': 20, 'no_collector_batches': 8, 'parameter_list_with_history': 15, 'procs_1': 20, 'procs_2_4': 20, 'procs_5_8': 8, 'procs_9_16': 8},
+                    'limit_above_completion': 15, 'multi_collector_batches': 20, 'no_collector_batches': 8, 'fault_exc_InjectedKeyError': 10, 'collectors_at_completer_priority': 40, 'parameter_list_with_history': 15, 'procs_1': 20, 'procs_2_4': 20, 'procs_5_8': 8, 'procs_9_16': 8},
           'thorough': {'batches': 3000, 'fault_batches': 1000, 'reordered_batches': 200, 'procs_9_16': 200}}
 EXHAUSTIVE = {}
 
@@ -95,7 +95,8 @@ def gen_spec(rng, sid, fault_ordinal=None, base=None):
         use_pl = rng.random() < 0.4
         base = dict(grid=grid, repetitions=reps, stop=stop, max_timesteps=lim, collector_ids=all_ids, collectors=collectors, processes=procs,
                     use_parameter_list=use_pl, explicit_reps=rng.random() < 0.5,
-                    pl_history=use_pl and rng.random() < 0.5)   # the ParameterList was built before and a parameter removed since
+                    pl_history=use_pl and rng.random() < 0.5,
+                    collector_priority=rng.choice([None, None, 0]))   # 0 = same priority as the completing system   # the ParameterList was built before and a parameter removed since
     spec = dict(base)
     spec['id'] = sid
     spec['delays'] = [rng.choice([0, 0.001, 0.002, 0.003, 0.0005]) for _ in range(rng.randint(2, 7))]
@@ -106,6 +107,8 @@ def gen_spec(rng, sid, fault_ordinal=None, base=None):
         if kind == 'step' and last < 0:
             kind = 'ctor'
         spec['fault'] = {'kind': kind, 'ordinal': fault_ordinal, 'tag': f'fault-{sid}-{fault_ordinal}',
+                         'exc': rng.choice(['InjectedFault', 'InjectedFault', 'InjectedKeyError', 'InjectedLookupError', 'InjectedAttributeError',
+                                            'InjectedStop']),
                          't': rng.randint(0, max(0, last)) if kind == 'step' else None}
     return spec
 
@@ -199,6 +202,8 @@ def check_batch(ctx, spec, out):
         ctx.count('multi_process_batches')
     if spec.get('pl_history'):
         ctx.count('parameter_list_with_history')
+    if spec.get('collector_priority') is not None:
+        ctx.count('collectors_at_completer_priority')
     ctx.state(('procs', spec['processes']))
     pc = spec['processes']
     ctx.count('procs_1' if pc == 1 else ('procs_2_4' if pc <= 4 else ('procs_5_8' if pc <= 8 else 'procs_9_16')))
@@ -212,10 +217,14 @@ def check_batch(ctx, spec, out):
             raise CaseViolation(f'an exception injected into execution #{fault["ordinal"]} ({fault["kind"]}) did not reach the caller of batch_run',
                                 got_results=len(out.get('result') or []), **detail)
         r = out['raised']
-        if r['type'] != 'InjectedFault' or r['tag'] != fault['tag']:
-            raise CaseViolation('the caller received a different exception than the one raised by the failing execution', raised=r, **detail)
+        # the property asks that the error REACHES the caller: the injected exception itself, or an error raised from it
+        if not any(c['tag'] == fault['tag'] for c in r.get('chain', [r])):
+            raise CaseViolation('the caller received an unrelated exception, not the one raised by the failing execution', raised=r, **detail)
+        if r['type'] == fault.get('exc', 'InjectedFault'):
+            ctx.count('faults_propagated_same_type')
         ctx.count('faults_propagated')
         ctx.count(f'fault_{fault["kind"]}')
+        ctx.count('fault_exc_' + fault.get('exc', 'InjectedFault'))
         ctx.distinct(('fault', json.dumps(spec['grid'], sort_keys=True), reps, spec['processes'], fault['ordinal'], fault['kind']))
         return
     if 'raised' in out:
